@@ -369,4 +369,5 @@ func c38(r *core.Run) {
 		})
 		r.Floor("C38.G2", "deliver/forward sinks in "+row.fn, n, 3)
 	}
+	deleteAtIndexLint(r, "C38.L1", "a peer that should leave a group list (or a forward target that should be dropped) stays when it directly follows another removed entry", "pkg/multicast")
 }
